@@ -1,12 +1,14 @@
 ---------------------------- MODULE MC_Cacher ----------------------------
 (* Model constants for Cacher.tla: program alphabets and the program sets of the two tiers. *)
 EXTENDS Cacher
-GS(k,g,b) == [t |-> "gs", k |-> k, g |-> g, b |-> b]
-RM(k)     == [t |-> "rmv", k |-> k, g |-> "ok", b |-> "ok"]
+GS(k,g,b) == [t |-> "gs", k |-> k, g |-> g, b |-> b, n |-> "none"]
+GSN(k,n)  == [t |-> "gs", k |-> k, g |-> "ok", b |-> "ok", n |-> n]
+RM(k)     == [t |-> "rmv", k |-> k, g |-> "ok", b |-> "ok", n |-> "none"]
 mcCallers == {"a","b","c"}
 mcKeys    == {"k1","k2","k3"}
 mcIdx     == [k \in mcKeys |-> IF k = "k3" THEN 2 ELSE 1]     \* k1 and k2 collide
 Alphabet(KS) == {GS(k,g,b) : k \in KS, g \in {"ok","raise"}, b \in {"ok","raise"}} \cup {RM(k) : k \in KS}
+                \cup {GSN(k,n) : k \in KS, n \in {"gs","rmv"}}
 SeqsUpTo(A,n) == UNION {[1..m -> A] : m \in 0..n}
 \* quick: (i) every pair of one-operation programs for two callers over the colliding keys k1,k2,
 \*        (ii) three curated three-caller assignments with two operations each
@@ -17,6 +19,9 @@ Curated == {
   [c \in mcCallers |-> IF c = "a" THEN <<GS("k1","ok","raise"), GS("k1","ok","ok")>>
                        ELSE IF c = "b" THEN <<RM("k1"), GS("k1","raise","ok")>>
                        ELSE <<GS("k3","ok","ok"), RM("k1")>>],
+  [c \in mcCallers |-> IF c = "a" THEN <<GSN("k1","gs"), RM("k1")>>
+                       ELSE IF c = "b" THEN <<GSN("k1","rmv"), GS("k2","ok","ok")>>
+                       ELSE <<RM("k1"), GSN("k2","gs")>>],
   [c \in mcCallers |-> IF c = "a" THEN <<GS("k2","ok","ok"), GS("k1","ok","ok")>>
                        ELSE IF c = "b" THEN <<GS("k1","ok","ok"), RM("k2")>>
                        ELSE <<GS("k2","raise","raise"), RM("k1")>>] }
